@@ -285,16 +285,16 @@ theorem doAwaitDataResponse_walk (c c' : Ctx) (now : Int) (a : Nat) (d : UseData
 /-! ## One whole poll while the station holds the token -/
 
 /-- The station holds the token and is in a message cycle: `UseToken` or `AwaitDataResponse`. -/
-def Holding (s : Station) : Prop := (∃ d fcd, s.st = .useToken d fcd) ∨ (∃ a d, s.st = .awaitData a d)
+def AppHolding (s : Station) : Prop := (∃ d fcd, s.st = .useToken d fcd) ∨ (∃ a d, s.st = .awaitData a d)
 
-theorem holding_wake (s : Station) (h : Holding s) : s.wake = s := by
+theorem holding_wake (s : Station) (h : AppHolding s) : s.wake = s := by
   unfold Station.wake
   rcases h with ⟨d, fcd, h⟩ | ⟨a, d, h⟩ <;> rw [h]
 
 /-- One whole poll that starts in `UseToken` / `AwaitDataResponse` (any bytes, any time, any scripts):
 its callbacks follow the turn from `next_application` before the poll to `next_application` after it. -/
 theorem poll_walk (s : Station) (apps : Apps) (now : Int) (phy : Bool) (rx : Bytes) (c' : Ctx)
-    (hh : Holding s) (h : s.poll apps now phy rx = .ok c') :
+    (hh : AppHolding s) (h : s.poll apps now phy rx = .ok c') :
     walk apps.length s.nextApp c'.calls = some c'.s.nextApp ∧ c'.apps.length = apps.length := by
   unfold Station.poll pollInner at h
   cases hon : s.online with
